@@ -7,6 +7,7 @@ import (
 	"os"
 	"sync"
 	"sync/atomic"
+	"time"
 	"unsafe"
 )
 
@@ -14,11 +15,23 @@ import (
 // reference-counting protocol.  Objects are identified by small integers assigned at first sight.
 // Off unless a harness calls VerifStartTrace.
 
+type verifPartInfo struct {
+	pid  uint64
+	mem  bool
+	dead bool
+}
+
 type verifTracer struct {
 	f    *os.File
 	enc  *json.Encoder
 	ids  map[unsafe.Pointer]int
 	ep0  map[int]uint64 // table -> first epoch seen (epochs are nanosecond-based: log them relative, TLC integers are 32-bit)
+	// objects are identified by their address; a freed object's address may be handed out again by the allocator, so a
+	// dead snapshot / part wrapper that shows up again as a DIFFERENT object (new publication; other part id or kind)
+	// gets a fresh identity, while the same object showing up again after its death keeps its identity (that is a bug
+	// the trace must show)
+	sdead map[unsafe.Pointer]bool
+	pinfo map[unsafe.Pointer]verifPartInfo
 	mu   sync.Mutex
 	seq  int
 	next int
@@ -32,7 +45,7 @@ func VerifStartTrace(path string) error {
 	if err != nil {
 		return err
 	}
-	verifTrace.Store(&verifTracer{f: f, enc: json.NewEncoder(f), ids: map[unsafe.Pointer]int{}, ep0: map[int]uint64{}})
+	verifTrace.Store(&verifTracer{f: f, enc: json.NewEncoder(f), ids: map[unsafe.Pointer]int{}, ep0: map[int]uint64{}, sdead: map[unsafe.Pointer]bool{}, pinfo: map[unsafe.Pointer]verifPartInfo{}})
 	return nil
 }
 
@@ -73,8 +86,19 @@ func verifSnapshotReplaced(tst *tsTable, next *snapshot) {
 	parts := make([]int, 0, len(next.parts))
 	mem := make([]int, 0, len(next.parts))
 	pids := make([]uint64, 0, len(next.parts))
+	if sp := unsafe.Pointer(next); t.sdead[sp] {
+		delete(t.ids, sp) // a newly published snapshot at the address of a dead one
+		delete(t.sdead, sp)
+	}
 	for _, pw := range next.parts {
-		w := t.id(unsafe.Pointer(pw))
+		pp := unsafe.Pointer(pw)
+		if info, ok := t.pinfo[pp]; ok && info.dead && (info.pid != pw.ID() || info.mem != (pw.mp != nil)) {
+			delete(t.ids, pp)
+		}
+		if info, ok := t.pinfo[pp]; !ok || info.pid != pw.ID() || info.mem != (pw.mp != nil) {
+			t.pinfo[pp] = verifPartInfo{pid: pw.ID(), mem: pw.mp != nil}
+		}
+		w := t.id(pp)
 		parts = append(parts, w)
 		if pw.mp != nil {
 			mem = append(mem, w)
@@ -101,6 +125,9 @@ func verifSnapshotRef(s *snapshot, delta, n int32) {
 		return
 	}
 	t.emit(map[string]any{"event": "SnapDec", "snap": t.id(unsafe.Pointer(s)), "n": int(n)})
+	if n == 0 {
+		t.sdead[unsafe.Pointer(s)] = true
+	}
 }
 
 func verifPartReleased(pw *partWrapper) {
@@ -111,6 +138,10 @@ func verifPartReleased(pw *partWrapper) {
 	t.mu.Lock()
 	defer t.mu.Unlock()
 	t.emit(map[string]any{"event": "PartZero", "part": t.id(unsafe.Pointer(pw)), "mem": pw.mp != nil, "removable": pw.removable.Load()})
+	if info, ok := t.pinfo[unsafe.Pointer(pw)]; ok {
+		info.dead = true
+		t.pinfo[unsafe.Pointer(pw)] = info
+	}
 }
 
 func verifPartRemoving(pw *partWrapper) {
@@ -141,4 +172,21 @@ func verifFileSnap(event string, tst *tsTable, id int, wrote bool, copied, liste
 		ev["wrote"], ev["copied"], ev["listed"], ev["opened"] = wrote, nz(copied), nz(listed), nz(opened)
 	}
 	t.emit(ev)
+}
+
+// verifChaos widens race windows: when on, verifPause sleeps a pseudo-random 0-2 ms at the marked sites.
+var (
+	verifChaos    atomic.Bool
+	verifChaosCtr atomic.Uint64
+)
+
+// VerifSetChaos switches schedule perturbation on or off.
+func VerifSetChaos(b bool) { verifChaos.Store(b) }
+
+func verifPause(string) {
+	if !verifChaos.Load() {
+		return
+	}
+	n := verifChaosCtr.Add(0x9E3779B97F4A7C15)
+	time.Sleep(time.Duration((n>>40)%2000) * time.Microsecond)
 }
